@@ -308,6 +308,16 @@ def _cls_join(case):
     return out
 
 
+def _atm_fill(u):
+    return {"T": -20.0 + 65.0 * u[0], "P": 650.0 + 450.0 * u[1], "lam": 0.4 + 1.2 * u[2], "efrac": u[3], "co2": 300.0 + 300.0 * u[4],
+            "nref": 1.00025 + 0.00006 * u[5], "dist": 10.0 ** (4.699 * u[6]), "kd": 0.1 + 9.9 * ((u[6] * 97.0) % 1.0)}
+
+
+def _va_fill(u):
+    z = 0.001 + 359.998 * u[0]
+    return _no180({"zen": z, "slope": 10.0 ** (-1.0 + 5.699 * u[1]), "hi": -5.0 + 10.0 * u[2], "ht": -5.0 + 10.0 * u[3]})
+
+
 def _va_lines(rnd):
     """Zenith angles 0.001 .. 359.999 (two lines: a short and a long sight) and the slope distance (log-spaced 0.1 m .. 50 km)."""
     out = []
@@ -357,6 +367,12 @@ SUBCHECKS = [
     SubCheck("atmosphere_axis_sweeps", check_first_vel, enumerate=S.sweeps(1920, _atm_lines, 4000, 80000), classes=_cls_atm,
              shards_quick=8, shards_thorough=16,
              rule="stratified sweeps of temperature, pressure, wavelength, humidity, CO2 and reference index (4 000 / 80 000 lattice points per line, seeded)"),
+    SubCheck("zenith_fill", check_va, enumerate=S.fill(1929, 4, _va_fill, 60000, 1200000), shards_quick=4, shards_thorough=8,
+             nontrivial=lambda c: c["hi"] != 0 or c["ht"] != 0,
+             rule="low-discrepancy fill of zenith angle x slope distance (log) x instrument height x target height: 60 000 / 1 200 000 points"),
+    SubCheck("atmosphere_fill", check_first_vel, enumerate=S.fill(1930, 7, _atm_fill, 30000, 600000), classes=_cls_atm,
+             shards_quick=12, shards_thorough=16,
+             rule="low-discrepancy fill of temperature x pressure x wavelength x humidity x CO2 x reference index x distance: 30 000 / 600 000 atmospheres"),
     SubCheck("first_velocity_wet_bulb", check_wet_bulb, strategy=wet_cases, classes=_cls_atm, quick=1500, thorough=50000,
              shards_quick=1, shards_thorough=4, rule="closed form with a wet-bulb temperature (incl. exactly 0 C): defined, linear in d"),
     SubCheck("dispersion_identity", check_dispersion, strategy=disp_cases, classes=_cls_atm, quick=3000, thorough=200000,
